@@ -101,6 +101,12 @@ func newCtrlSide(ctx context.Context, env *g9mesh.Env, le *logrus.Entry, owner i
 		env.W.Register(owner)
 		_ = s.c.Execute(ctx)
 	}()
+	// the Execute loop is up (it has published its router) before any link
+	// value is delivered: from here on the goroutine is inside Controller.Execute
+	// and visible to the goroutine-state conditions
+	if _, err := s.c.GetPubSub(ctx); err != nil {
+		return nil, err
+	}
 	s.di = &g9mesh.FakeDI{Ctx: ctx, Dir: link.NewEstablishLinkWithPeer("", "")}
 	if _, err := s.c.HandleDirective(ctx, s.di); err != nil {
 		return nil, err
@@ -115,6 +121,7 @@ func newCtrlSide(ctx context.Context, env *g9mesh.Env, le *logrus.Entry, owner i
 // Execute loop parked in its select (all incoming links consumed) or the stub
 // router; no link tracker is alive.
 func ctrlQuiescent(env *g9mesh.Env) (bool, string) {
+	loops := 0
 	for _, g := range env.W.Fresh().Gs {
 		f, ok := g.InnermostWith(ctrlPkg)
 		if !ok {
@@ -124,9 +131,15 @@ func ctrlQuiescent(env *g9mesh.Env) (bool, string) {
 			continue
 		}
 		if strings.HasSuffix(f.Fn, "(*Controller).Execute") && g.State == "select" {
+			loops++
 			continue
 		}
 		return false, g.String()
+	}
+	// both controllers of the batch must have been SEEN parked (a loop that is
+	// not in the snapshot at all has not consumed anything)
+	if loops < 2 {
+		return false, fmt.Sprintf("only %d controller Execute loops in the snapshot", loops)
 	}
 	return true, ""
 }
@@ -1022,7 +1035,7 @@ func subFrames(fs []*g9mesh.Frame) []string {
 func TestC29(t *testing.T) {
 	r := vf.Start(t, "C29", vf.Exploration)
 	defer r.Finish()
-	r.SetRule("(a) opener rule: two real pubsub controllers (stub router, captured EstablishLinkWithPeer reference handler) are handed the two ends of one link as fake mounted links, for pairs of distinct peer ids (real Ed25519 ids; ids sharing all but the last byte; one id a prefix of the other; leading-zero ids; one-bit mutations), delivered concurrently in opposite orders; at controller quiescence (no tracker goroutine alive, Execute loops parked) OpenMountedStream calls over both ends must total exactly 1. (b)+(c): histories of exec / subscribe / add-handler / remove-handler / release / add-peer-stream on one real FloodSub node, each operation raced with 0-6 authentic publishes written by harness-driven neighbours, gaps none / scheduler yields / exact quiescence (every fifth history is a pure burst); (b) a callback logged at logical time t > removeReturned(handler) or t > releaseReturned(subscription) is a violation (callbacks run under the subscription mutex that remove/release take); (c) at every exact quiescent point each neighbour's replayed view (Subscribe true/false packets on the tap) equals the node's set of channels with a live subscription; finally everything is released, views must be empty and a last feed must reach no handler. (d) scripted overlap: 1-3 subscriptions with 1-5 handlers each, 0-2 neighbours, 1-4 rounds; per round a message (subscription Publish / FloodSub.Publish / neighbour packet) is delivered to a target subscription and the first callback of a handler that is not about to be removed blocks on a harness gate; while it is blocked, Release of the target and / or the remove functions of other handlers of the target (sometimes also Release of another subscription) are started in their own goroutines; once each has returned or is parked in sync.Mutex.Lock below a floodsub frame (goroutine-state inspection) 0-3 further messages are issued and the gate is opened; oracle as in (b), views as in (c). (e) back-pressure at the moment of a subscription change: 1-3 harness-driven neighbours announce channels, the streams towards some of them (always the first, which wants the channel) are stalled (writes block), K publications (K around the per-peer queue size: 30..36 in half of the scenarios, 32..35 forced regularly, else 0..29 or 37..96; via a subscription, FloodSub.Publish or another neighbour's feed) are forwarded into them, then - once the node rests against the stalled streams: router parked on a full send queue, or all calls returned and the node exactly quiescent - 1-3 subscription changes (release of the last / one subscription, new channel, release + re-subscribe ...) are issued in their own goroutine and, once they returned or are parked on a floodsub lock and the node rests again, the streams are un-stalled in PRNG order; oracle (c) at the following exact quiescence, then everything is released and (c) again, (b) throughout. (f) stream replacement with the OLD stream stalled: the stream of a neighbour's (peer, link) tuple is stalled, 0-23 publications are forwarded into it (a session stuck in the stream write), the stream is REPLACED by AddPeerStream for the same tuple (1-2 times; the neighbour re-announces or not), exact quiescence (= the replacement session has started while the old one is still stuck), optional changes, then the old streams drain or are closed in PRNG order (old sessions exit late), then publications and 1-3 subscription changes; oracle (c) over the neighbour's CURRENT stream at every exact quiescent point. Non-trivial: (a) exactly one open observed; (e) a stalled stream had a blocked writer and views were judged; (f) an old session was stuck in its stream write when it was replaced; (b,c) history with at least one neighbour, one subscription and one callback; (d) at least one overlap was established and a callback was logged.")
+	r.SetRule("(a) opener rule: two real pubsub controllers (stub router, captured EstablishLinkWithPeer reference handler) are handed the two ends of one link as fake mounted links, for pairs of distinct peer ids (real Ed25519 ids; ids sharing all but the last byte; one id a prefix of the other; leading-zero ids; one-bit mutations), delivered concurrently in opposite orders; at controller quiescence (no tracker goroutine alive, Execute loops parked) OpenMountedStream calls over both ends must total exactly 1. (a2) the same over link RE-ESTABLISHMENT histories, batches of 40 pairs stepping through one shape (8 forced shapes round-robin, then PRNG shapes): link value added -> removed -> added again under the SAME link uuid as a new or the same MountedLink object (per pair), 1-3 times, optionally re-reported without removal; OpenMountedStream of a link object can be held at a harness gate, so that the previous establishment's tracker is still blocked in the open when the link is removed and when the next value arrives; steps are separated by rest points decided from goroutine states (both Execute loops parked after the last callback returned, every other controller goroutine parked at the gate) or follow back to back; the gates open at the end or in between; a held open whose context was cancelled fails. Oracle at controller quiescence: on the link object that is established at the end, successful OpenMountedStream calls begun since it was (last) established: one side 1..(times the value was reported), the other side 0. (b)+(c): histories of exec / subscribe / add-handler / remove-handler / release / add-peer-stream on one real FloodSub node, each operation raced with 0-6 authentic publishes written by harness-driven neighbours, gaps none / scheduler yields / exact quiescence (every fifth history is a pure burst); (b) a callback logged at logical time t > removeReturned(handler) or t > releaseReturned(subscription) is a violation (callbacks run under the subscription mutex that remove/release take); (c) at every exact quiescent point each neighbour's replayed view (Subscribe true/false packets on the tap) equals the node's set of channels with a live subscription; finally everything is released, views must be empty and a last feed must reach no handler. (d) scripted overlap: 1-3 subscriptions with 1-5 handlers each, 0-2 neighbours, 1-4 rounds; per round a message (subscription Publish / FloodSub.Publish / neighbour packet) is delivered to a target subscription and the first callback of a handler that is not about to be removed blocks on a harness gate; while it is blocked, Release of the target and / or the remove functions of other handlers of the target (sometimes also Release of another subscription) are started in their own goroutines; once each has returned or is parked in sync.Mutex.Lock below a floodsub frame (goroutine-state inspection) 0-3 further messages are issued and the gate is opened; oracle as in (b), views as in (c). (e) back-pressure at the moment of a subscription change: 1-3 harness-driven neighbours announce channels, the streams towards some of them (always the first, which wants the channel) are stalled (writes block), K publications (K around the per-peer queue size: 30..36 in half of the scenarios, 32..35 forced regularly, else 0..29 or 37..96; via a subscription, FloodSub.Publish or another neighbour's feed) are forwarded into them, then - once the node rests against the stalled streams: router parked on a full send queue, or all calls returned and the node exactly quiescent - 1-3 subscription changes (release of the last / one subscription, new channel, release + re-subscribe ...) are issued in their own goroutine and, once they returned or are parked on a floodsub lock and the node rests again, the streams are un-stalled in PRNG order; oracle (c) at the following exact quiescence, then everything is released and (c) again, (b) throughout. (f) stream replacement with the OLD stream stalled: the stream of a neighbour's (peer, link) tuple is stalled, 0-23 publications are forwarded into it (a session stuck in the stream write), the stream is REPLACED by AddPeerStream for the same tuple (1-2 times; the neighbour re-announces or not), exact quiescence (= the replacement session has started while the old one is still stuck), optional changes, then the old streams drain or are closed in PRNG order (old sessions exit late), then publications and 1-3 subscription changes; oracle (c) over the neighbour's CURRENT stream at every exact quiescent point. (g) subscription lifecycles: with 1-3 neighbours connected the node subscribes a channel (1-2 subscriptions), releases the last one, becomes exactly quiescent (unsubscribe announced) or not, and subscribes the SAME channel again, 1-3 cycles, sometimes with another channel subscribed throughout, a neighbour feeding a message after every re-subscription, a late neighbour at the end; (c) at every exact quiescent point. Non-trivial: (a) exactly one open observed; (a2) exactly one side opened on the finally established object; (g) at least one release - quiescence - re-subscribe cycle was judged; (e) a stalled stream had a blocked writer and views were judged; (f) an old session was stuck in its stream write when it was replaced; (b,c) history with at least one neighbour, one subscription and one callback; (d) at least one overlap was established and a callback was logged.")
 	r.Assume("exactly one side opens is checked per delivered link value, not one open per link for all time (DESIGN 8)")
 	r.Assume("AddHandler on an already released subscription is not exercised")
 	env, err := getEnv()
@@ -1034,7 +1047,17 @@ func TestC29(t *testing.T) {
 	jr := newJournal(r)
 	// (a)
 	pairs := genPairs(r.Rand("c29a"), keys.Pool(r.Rand("c29a-keys"), r.N(96, 600)), r.N(2000, 40000))
+	// (informational only: wall time per family, never used in a verdict)
+	phase := map[string]string{}
+	t0 := time.Now()
+	lap := func(name string) { phase[name] = time.Since(t0).Round(100 * time.Millisecond).String(); t0 = time.Now() }
+	defer func() { r.Extra("family_wall_time_informational", phase) }()
 	runC29a(r, env, pairs, r.N(250, 1000), jr)
+	lap("a")
+	// (a2) opener rule over re-establishment histories
+	pairs2 := genPairs(r.Rand("c29a2"), keys.Pool(r.Rand("c29a2-keys"), r.N(96, 600)), r.N(960, 16000))
+	runC29relink(r, env, pairs2, r.N(40, 200), jr)
+	lap("a2")
 	// (b), (c)
 	rng := r.Rand("c29bc")
 	n := r.N(200, 2500)
@@ -1043,6 +1066,7 @@ func TestC29(t *testing.T) {
 		hs[i] = genC29(rng, i)
 	}
 	parallel(n, 16, func(i int) { runC29bc(r, env, pool, hs[i], jr) })
+	lap("bc")
 	// (d) scripted overlap
 	rngO := r.Rand("c29ovl")
 	no := r.N(96, 1500)
@@ -1051,6 +1075,7 @@ func TestC29(t *testing.T) {
 		ovs[i] = genC29ovl(rngO, i)
 	}
 	parallel(no, 16, func(i int) { runC29ovl(r, env, pool, ovs[i], jr) })
+	lap("d")
 	// (e) back-pressure at the moment of a subscription change
 	rngE := r.Rand("c29bp")
 	nbp := r.N(64, 900)
@@ -1059,6 +1084,7 @@ func TestC29(t *testing.T) {
 		bps[i] = genC29bp(rngE, i)
 	}
 	parallel(nbp, 16, func(i int) { runC29bp(r, env, pool, bps[i], jr) })
+	lap("e")
 	// (f) stream replacement with the old stream stalled
 	rngF := r.Rand("c29rp")
 	nrp := r.N(48, 700)
@@ -1067,5 +1093,15 @@ func TestC29(t *testing.T) {
 		rps[i] = genC29rp(rngF, i)
 	}
 	parallel(nrp, 16, func(i int) { runC29rp(r, env, pool, rps[i], jr) })
+	lap("f")
+	// (g) subscription lifecycles on one channel
+	rngG := r.Rand("c29life")
+	nlc := r.N(32, 500)
+	lcs := make([]*c29life, nlc)
+	for i := range lcs {
+		lcs[i] = genC29life(rngG, i)
+	}
+	parallel(nlc, 16, func(i int) { runC29life(r, env, pool, lcs[i], jr) })
+	lap("g")
 	r.Extra("goroutine_snapshots", env.W.Taken())
 }
